@@ -226,6 +226,26 @@ pub fn run_c09(ctx: &Ctx) -> Report {
         });
         subs.push(sub);
     }
+    // messages that come out of the scanners must encode like constructor-built ones
+    {
+        let n = ctx.pick(5_000u64, 200_000, 2_000_000);
+        let proto = Sub::new(
+            "reencode_scanner_output",
+            "seeded (N)RPN messages are encoded (reference sequence, both byte orders), fed to the (N)RPN scanner (LSB first) and - with std - to the polling scanner (both orders); the message each scanner reports must be equal to the original and must itself encode (array conversion, to_short_messages in both orders) exactly like a constructor-built message",
+            "non-trivial = 14-bit message (the byte order matters); counted per evaluation",
+            false,
+        );
+        let seed = ctx.sub_seed("reencode_scanner_output");
+        let mut sub = par_enum(ctx, &proto, n, |sub, i| {
+            let h = splitmix(seed ^ i.wrapping_mul(0x9E3779B97F4A7C15));
+            let c = (h % 8) as usize;
+            let r = ctor_report(c, ((h >> 3) % 16) as u8, ((h >> 7) % 16384) as u16, ((h >> 21) % (value_max(c) as u64 + 1)) as u16);
+            sub.eval(pn_simplicity(r.channel, r.number, r.value), || json!({"kind": "reencode", "message": report_json(&r)}), || check_reencode(&r));
+        });
+        sub.exhaustive = false;
+        sub.samples.push(json!({"kind": "reencode", "message": report_json(&ctor_report(5, 0, 420, 15000))}));
+        subs.push(sub);
+    }
     if ctx.thorough() {
         // full product: all 7-bit / inc / dec messages
         {
@@ -292,7 +312,40 @@ pub fn run_c09(ctx: &Ctx) -> Report {
     }
 }
 
+fn check_reencode(r: &PnReport) -> CheckResult {
+    // through the non-polling scanner (LSB-first encoding)
+    let mut sc = api(ParameterNumberMessageScanner::new);
+    let mut got = None;
+    for (s, cn, v) in ref_encode_pn(r, true) {
+        got = feed_nrpn(&mut sc, 0, s, cn, v);
+    }
+    let g = got.ok_or_else(|| Fail { sig: "reencode/scanner_did_not_report".into(), detail: format!("{:?}", r) })?;
+    ensure!(observe_pn(&g) == *r, "reencode/scanner_reported_other_message", "{:?} vs {:?}", observe_pn(&g), r);
+    reencode_pn(&g)?;
+    #[cfg(feature = "hm_std")]
+    for lsb_first in [false, true] {
+        use crate::ops::polling::*;
+        let mut ps = crate::p_polling::new_scanner(0);
+        set_clock(0);
+        let mut reported = Vec::new();
+        for (s, cn, v) in ref_encode_pn(r, lsb_first) {
+            for m in feed_polling(&mut ps, 0, s, cn, v).iter().flatten() {
+                reported.push(*m);
+            }
+        }
+        if let Some(m) = api(|| ps.poll(h_ch(r.channel))) {
+            reported.push(m);
+        }
+        ensure!(reported.len() == 1 && observe_pn(&reported[0]) == *r, "reencode/polling_scanner_reported_other_messages", "{:?} ({}): {:?}", r, if lsb_first { "LSB first" } else { "MSB first" }, reported.iter().map(observe_pn).collect::<Vec<_>>());
+        reencode_pn(&reported[0])?;
+    }
+    Ok(r.is_14_bit)
+}
+
 pub fn replay_c09(_sub: &str, case: &Value) -> Option<CheckResult> {
+    if case["kind"].as_str() == Some("reencode") {
+        return Some(check_reencode(&report_from(&case["message"])?));
+    }
     let c = CTORS.iter().position(|n| Some(*n) == case["ctor"].as_str())?;
     let ch = json_u8(&case["channel"]).filter(|c| *c < 16)?;
     let number = json_u64(&case["number"]).filter(|v| *v < 16384)? as u16;
@@ -828,6 +881,7 @@ pub fn check_nrpn_history(ops: &[Op], stats: &mut NrpnStats) -> Result<(), Fail>
                 }
                 if let (Some(g), Some(w)) = (got, want) {
                     ensure!(g == build_pn(&w), "history/report_not_equal_to_constructed", "op #{}: {:?} != {:?}", i, g, build_pn(&w));
+                    reencode_pn(&g)?;
                     stats.reports += 1;
                     if w.is_14_bit {
                         stats.fourteen += 1;
